@@ -51,7 +51,7 @@ def _fabricate(sup):
 
     def ov(i, ss):
         if i % 2 == 1:
-            return ss, POut(a=jnp.array([sup.nid, -7, 4242], dtype=jnp.int32))
+            return ss, POut(a=jnp.array([sup.nid, -7, 4242, 0], dtype=jnp.int32))
         return None
 
     return ov
@@ -140,7 +140,7 @@ def check(case) -> CaseResult:
                     out, ss = reset(gs)
                     for i in range(N - 1):
                         if i % 2 == 1:
-                            out, ss = step(out, ss, POut(a=jnp.array([run.sup.nid, -7, 4242], dtype=jnp.int32)))
+                            out, ss = step(out, ss, POut(a=jnp.array([run.sup.nid, -7, 4242, 0], dtype=jnp.int32)))
                             overridden.add(i)
                         else:
                             out, ss = step(out)
